@@ -62,7 +62,7 @@ def census(F):
 	"""{(file, fn tail, callee key): sorted tuple of condition counts over its call sites}, plus where"""
 	if F.dir in _C:
 		return _C[F.dir]
-	cache = os.path.join(F.dir, 'cache_guards3.json')
+	cache = os.path.join(F.dir, 'cache_guards4.json')
 	if os.path.exists(cache):
 		try:
 			d = json.load(open(cache))
@@ -105,6 +105,32 @@ def census(F):
 						key = rf + ':' + cl[0]
 			if key:
 				sites.append((b, key))
+		# assignments to a field of state that outlives the call (reached through a reference) are acts too: `*current_hold_time = Some(t)` under a
+		# match arm made more specific is the same defect as a call behind an added condition
+		for bi, si, st in fu.stmts():
+			pl = st[1]
+			if fu.is_cleanup(bi) or len(pl) < 2 or '*' not in pl[1:]:
+				continue
+			last = pl[-1]
+			fld = None
+			if isinstance(last, str) and last.startswith('.') and '#' in last:
+				nm, _, owner = last[1:].partition('#')
+				ow = norm(owner).rsplit('::', 1)[-1]
+				if not nm.isdigit() and ow not in ('Some', 'Ok', 'Err'):
+					fld = ow + '.' + nm
+			elif last == '*' and len(pl) == 2 and isinstance(pl[0], int) and pl[0] > fu.argc:
+				# `*binding = value` where the binding is a `ref mut` of a field (match ergonomics): resolve the binding's one definition
+				ds = [d for d in fu.defs.get(pl[0], []) if len(d[2]) == 1]
+				if len(ds) == 1 and ds[0][3][0] == 'ref' and ds[0][3][1]:
+					tp = ds[0][3][2]
+					l2 = tp[-1] if tp else None
+					if isinstance(l2, str) and l2.startswith('.') and '#' in l2 and '*' in tp[1:]:
+						nm, _, owner = l2[1:].partition('#')
+						ow = norm(owner).rsplit('::', 1)[-1]
+						if not nm.isdigit() and ow not in ('Some', 'Ok', 'Err'):
+							fld = ow + '.' + nm
+			if fld:
+				sites.append((bi, fld + ':='))
 		if not sites:
 			continue
 		cc = cond_counts(fu)
